@@ -29,6 +29,10 @@ class Module:
         self.rel = str(path.relative_to(root / "pdb2pqr"))
         self.src = path.read_text(encoding="utf-8")
         self.tree = ast.parse(self.src, filename=str(path))
+        self.alpha = {}
+
+    def finish(self):
+        """Normalise (alpha.py) and annotate the tree; called by Program once every module is parsed."""
         # analysis modulo alpha-equivalence: locals are renamed towards the reference naming (see alpha.py)
         from . import alpha
         self.alpha = alpha.normalise(self.tree, self.rel) if os.environ.get("VERIF_NO_ALPHA") != "1" else {}
@@ -81,6 +85,13 @@ class Program:
                 raise AnalysisError(f"cannot parse {path}: {exc}") from exc
             self.modules[mod.rel] = mod
             mod._prog = self  # type: ignore[attr-defined]
+        # new single-use helpers are spliced back into their only caller (see alpha.unextract), then every module is normalised
+        self.unextracted = []
+        if os.environ.get("VERIF_NO_ALPHA") != "1":
+            from . import alpha
+            self.unextracted = alpha.unextract({rel: m.tree for rel, m in self.modules.items()})
+        for mod in self.modules.values():
+            mod.finish()
             self._index(mod, mod.tree, None, "")
         self._module_env: dict[str, dict] = {}
 
@@ -386,6 +397,37 @@ def guards_of(node, stop=None):
         p = parent(p)
     out.reverse()
     return out
+
+
+def expand_temps(expr, fn, depth=3):
+    """expr with every local that is bound exactly once in fn (to an expression without calls) replaced by that expression:
+    `t = a / b; x += t * c` reads as `x += a / b * c`.  Returns a new node."""
+    import copy
+    binds: dict[str, list] = {}
+    for st in iter_stmts(fn.body):
+        if isinstance(st, ast.Assign) and len(st.targets) == 1 and isinstance(st.targets[0], ast.Name):
+            binds.setdefault(st.targets[0].id, []).append(st.value)
+        elif isinstance(st, (ast.AugAssign, ast.AnnAssign)) and isinstance(st.target, ast.Name):
+            binds.setdefault(st.target.id, []).extend([None, None])
+        elif isinstance(st, (ast.For, ast.comprehension)):
+            for t in ast.walk(st.target):
+                if isinstance(t, ast.Name):
+                    binds.setdefault(t.id, []).extend([None, None])
+    single = {k: v[0] for k, v in binds.items() if len(v) == 1 and v[0] is not None and not any(isinstance(n, ast.Call) for n in ast.walk(v[0]))}
+
+    class _T(ast.NodeTransformer):
+        def visit_Name(self, node):
+            if isinstance(node.ctx, ast.Load) and node.id in single:
+                return copy.deepcopy(single[node.id])
+            return node
+
+    out = copy.deepcopy(expr)
+    for _ in range(depth):
+        new = _T().visit(out)
+        if ast.dump(new) == ast.dump(out):
+            break
+        out = new
+    return ast.fix_missing_locations(out)
 
 
 _POSITIVE = {ast.NotEq: ast.Eq, ast.IsNot: ast.Is, ast.NotIn: ast.In}
